@@ -1,4 +1,4 @@
-import Dawn.Proofs.MvsDowngrade
+import Dawn.Proofs.MvsFuel
 /-!
 # C10 — the resolved build list is the minimal-version-selection solution
 
@@ -230,7 +230,7 @@ theorem C11_get_idem (e : Env) (c c' : Config) (q : String) (fuel0 fuel : Nat) (
     (hland : version ∈ bl') : Get fuel e c' q = .ok c' :=
   get_landed_noop hwf' (transformReqs_sorted hget hnames) hbl' hres hver hland
 
-/-- C11, downgrading — PARTIAL. Proved: when `get p@q` is a downgrade (the current build list has `p` above the resolved
+/-- C11, downgrading, first half (kept as a lemma of `C11_downgrade`, which closes the gap named here). Proved: when `get p@q` is a downgrade (the current build list has `p` above the resolved
 version), the project file it writes resolves to exactly the build list `mvs.Downgrade` computed — the file and the
 algorithm agree, names and all (`C11_names`). NOT proved (the gap): that this list has `p` at or below the resolved
 version and nothing above its old version; that is the exclusion-closure invariant of `add`/`exclude` in `mvs.Downgrade`
@@ -244,6 +244,20 @@ theorem C11_downgrade_partial (e : Env) (c c' : Config) (q : String) (fuel fuel'
     (hbl' : BuildList fuel' e c' = .ok bl') :
     ∃ bld, mvsDowngrade fuel (dawnReqs e (c.map (·.2))) (previous e) rootMod version = .ok bld ∧ bl' = bld :=
   get_downgrade hwf htags hget hbl hres hver hdown hbl'
+
+/-- C11, downgrading, at full strength: when `get p@q` is a downgrade, the build list of the project file it writes has
+`p` at or below the resolved version — or does not have `p` at all. (`C11_downgrade_partial`: that build list is the list
+`mvs.Downgrade` computed; `mvsDowngrade_at_or_below`: the exclusion closure of `add`/`exclude` keeps out of that list
+everything that, transitively, requires `p` above the resolved version.) -/
+theorem C11_downgrade (e : Env) (c c' : Config) (q : String) (fuel fuel' : Nat) (bl bl' : List Mod) (version : Mod)
+    (hwf : WellFormed e (c.map (·.2))) (htags : ∀ t ∈ e.tags, okReq t)
+    (hget : Get fuel e c q = .ok c') (hbl : BuildList fuel e c = .ok bl)
+    (hres : resolveVersionQuery e bl (parseVersionQuery q) = .ok version) (hver : okReq version)
+    (hdown : ∃ cur ∈ bl, cur.path = version.path ∧ semverCompare cur.ver version.ver = .gt)
+    (hbl' : BuildList fuel' e c' = .ok bl') :
+    ∀ w, (⟨version.path, w⟩ : Mod) ∈ bl' → Ver.le w version.ver := by
+  obtain ⟨bld, hd, rfl⟩ := C11_downgrade_partial e c c' q fuel fuel' bl bl' version hwf htags hget hbl hres hver hdown hbl'
+  exact mvsDowngrade_at_or_below hd hver.1
 
 /-- C11, the downgrade loop terminates: when `Previous` answers `"none"` or a strictly smaller version out of a finite
 set `vs` (to which the versions the downgrade names belong), the loop `for excluded[r]` of `mvs.Downgrade` ends after at
@@ -270,6 +284,59 @@ theorem C11_previous_counterexample (fuel : Nat) (rq : Reqs) (e : Env) (maxv : S
     stepDown fuel rq (previousD13 e) maxv n st ⟨p, .root⟩ = .error .fuel :=
   ⟨previousD13_fixpoint e p hp hloc, stepDown_D13_spins fuel rq e maxv p hp hloc st hex hadded n⟩
 
+/-! ### total correctness: fuel sufficiency in finite universes (the C11 counterpart of `C10_fuel`)
+
+`U` is any finite list of modules that contains the main project and is closed under requirements; `deg` counts a
+module's requirements. With these, the partial-correctness theorems above become total for `Tidy` and `UpgradeAll`; for
+`get` the pieces are all here (`C10_fuel` for its build lists, `C11_fuel_add` and `C11_fuel_downgrade_loop` for
+`mvs.Downgrade`, `op_reqList_fuel` for the final `ReqList`) but they are not assembled into one statement. -/
+
+/-- `Tidy` answers — requirements or an error, never `Err.fuel` — once the fuel exceeds `1 + |U| + Σ_{n∈U} (2 + deg n)` -/
+theorem C11_fuel_tidy (e : Env) (c : Config) (U : List Mod) (hroot : rootMod ∈ U)
+    (hU : ∀ n ∈ U, ∀ l, (dawnReqs e (c.map (·.2))).required n = some l → ∀ m ∈ l, m ∈ U) (fuel : Nat)
+    (hf : 1 + U.length + (U.map fun n => 2 + deg (dawnReqs e (c.map (·.2))) n).sum ≤ fuel) :
+    Tidy fuel e c ≠ .error .fuel :=
+  transformReqs_fuel (req_fuel _ rootMod U hroot hU fuel hf)
+
+/-- `UpgradeAll` answers once the fuel exceeds both the bound of its exploration (requirement and upgrade edges) and
+the bound of `ReqList` -/
+theorem C11_fuel_upgrade_all (e : Env) (c : Config) (U : List Mod) (hroot : rootMod ∈ U)
+    (hU : ∀ n ∈ U, ∀ l, (dawnReqs e (c.map (·.2))).required n = some l → ∀ m ∈ l, m ∈ U)
+    (hU' : ∀ n ∈ U, ∀ m ∈ edges (dawnReqs e (c.map (·.2))) (some (upAllFn e)) n, m ∈ U) (fuel : Nat)
+    (hf1 : 1 + (U.map fun n => 1 + (edges (dawnReqs e (c.map (·.2))) (some (upAllFn e)) n).length).sum ≤ fuel)
+    (hf2 : 1 + U.length + (U.map fun n => 2 + deg (dawnReqs e (c.map (·.2))) n).sum ≤ fuel) :
+    UpgradeAll fuel e c ≠ .error .fuel :=
+  transformReqs_fuel (op_reqList_fuel _ _ (some (upAllFn e)) rootMod U hroot hU hU' fuel hf1 hf2)
+
+/-- `mvs.Downgrade`'s recursion `add` answers once the fuel reaches `Σ_{n∈U} (3 + 2·deg n)` -/
+theorem C11_fuel_add (rq : Reqs) (maxv : Sel) (U : List Mod)
+    (hU : ∀ n ∈ U, ∀ l, rq.required n = some l → ∀ m ∈ l, m ∈ U) (fuel : Nat)
+    (hf : (U.map fun n => 3 + 2 * deg rq n).sum ≤ fuel) (st : DState) (m : Mod) (hm : m ∈ U) :
+    (add fuel rq maxv st m).isSome :=
+  add_fuel rq maxv U hU fuel hf st m hm
+
+/-- `ReqList` answers once the fuel exceeds `1 + |list| + Σ_{n∈U} (2 + deg n)` -/
+theorem C11_fuel_reqList (rq : Reqs) (main : Mod) (list U : List Mod) (hmain : main ∈ U) (hlist : ∀ m ∈ list, m ∈ U)
+    (hU : ∀ n ∈ U, ∀ l, rq.required n = some l → ∀ m ∈ l, m ∈ U) (fuel : Nat)
+    (hf : 1 + list.length + (U.map fun n => 2 + deg rq n).sum ≤ fuel) :
+    reqList fuel rq main list ≠ .error .fuel :=
+  reqList_fuel rq main list U hmain hlist hU fuel hf
+
+/-- the loop `for excluded[r]` of `mvs.Downgrade`, total: with candidates drawn from `U` (what `Previous` answers and the
+versions the downgrade names stay in `U`), `Previous` strictly decreasing within the finite set `vs`, and fuel for `add`
+as in `C11_fuel_add`, the loop never answers `Err.fuel` when allowed more than `|vs|` iterations -/
+theorem C11_fuel_downgrade_loop (fuel : Nat) (rq : Reqs) (prev : Mod → Option Mod) (maxv : Sel) (vs : List Ver) (U : List Mod)
+    (hU : ∀ n ∈ U, ∀ l, rq.required n = some l → ∀ m ∈ l, m ∈ U)
+    (hf : (U.map fun n => 3 + 2 * deg rq n).sum ≤ fuel)
+    (hprev : ∀ r p, r ∈ U → prev r = some p → p.ver = .none ∨ (p.ver ∈ vs ∧ cmpVersion p.ver r.ver = .lt ∧ p ∈ U))
+    (hmax : ∀ p v, maxv.lookup p = some v → v ∈ vs)
+    (hadj : ∀ r p v, r ∈ U → prev r = some p → maxv.lookup r.path = some v → (⟨p.path, v⟩ : Mod) ∈ U)
+    (n : Nat) (st : DState) (r : Mod) (hr : r ∈ U) (hn : vs.length < n) :
+    stepDown fuel rq prev maxv n st r ≠ .error .fuel := by
+  apply stepDown_terminates_on (· ∈ U) fuel rq prev maxv vs
+    (fun st p hp => add_fuel rq maxv U hU fuel hf st p hp) hprev hmax hadj n st r hr
+  exact Nat.lt_of_le_of_lt (List.length_filter_le _ _) hn
+
 /-! ### non-vacuity and the concrete witnesses of D13, D14, D15 -/
 
 namespace Example
@@ -294,6 +361,10 @@ def cfg13 : Config := [("a", ⟨A, v 1 1 0⟩), ("b", ⟨B, v 1 2 0⟩)]
 /-- `get` with the old `Reqs.Previous` -/
 def GetD13 (fuel : Nat) (e : Env) (c : Config) (query : String) : Except Err Config :=
   transformReqs e c fun root => get fuel e (previousD13 e) root (parseVersionQuery query)
+
+/-- the hypotheses of `C11_fuel_tidy` on D13's universe: five modules, closed; the bound is 1 + 5 + (5·2 + 3 edges) = 19 -/
+def U13 : List Mod := [rootMod, ⟨A, v 1 1 0⟩, ⟨B, v 1 1 0⟩, ⟨B, v 1 2 0⟩, ⟨B, v 1 3 0⟩]
+example : Tidy 19 env13 cfg13 ≠ .error .fuel := C11_fuel_tidy env13 cfg13 U13 (by decide) (by decide) 19 (by decide)
 
 /-- D13 on its failing input: the fixed model drops `a`, which has no older tag, and lands on b v1.1.0 … -/
 example : Get 30 env13 cfg13 "github.com/v/u/b@v1.1.0" = .ok [("b", ⟨B, v 1 1 0⟩)] := by rfl
